@@ -198,7 +198,9 @@ class Step:
 
             if aggregate.condition:
                 for node in aggregate.condition.walk():
-                    name = intermediate.get(node) or intermediate.get(node.name)
+                    name = intermediate.get(node) or (
+                        intermediate.get(node.name) if isinstance(node, exp.Column) else None
+                    )
                     if name:
                         node.replace(exp.column(name, step.name))
 
